@@ -51,7 +51,10 @@ func (s *vfSM) alsoC06(v *vfViol) *vfViol {
 	return v
 }
 
-func (s *vfSM) peek(key uint64) (uint64, bool) { return s.c.storedItems.Get(key, 0) }
+func (s *vfSM) peek(key uint64) (uint64, bool) {
+	kh, _ := s.c.keyToHash(key)
+	return s.c.storedItems.Get(kh, 0)
+}
 
 func (s *vfSM) fifoCap() int { return cap(s.c.setBuf) }
 
@@ -612,6 +615,10 @@ func (s *vfSM) stepOne(vs *[]*vfViol) {
 	}
 	s.stepOneReal()
 	s.fifo = s.fifo[1:]
+	if s.twin != nil {
+		s.twin.stepOne()
+		s.compareTwin(vs, "applying a buffered item")
+	}
 	if bd := s.blockedDel; bd != nil && bd.isWait {
 		s.blockedDel = nil
 		s.fifo = append(s.fifo, vfPend{kind: pWait, wid: bd.wid})
@@ -699,6 +706,13 @@ func (s *vfSM) exec(op *vfOp) (vs []*vfViol) {
 		s.add(&vs, v)
 		pv, pok := s.peek(op.Key)
 		s.modelSet(op, ok, pok && pv == op.Tok, now, &vs)
+		if s.twin != nil {
+			if tok := s.twin.c.SetWithTTL(op.Key, op.Tok, op.Cost, time.Duration(op.TTL)); tok != ok {
+				s.add(&vs, vfV("C15", "cleared-cache-differs-from-a-fresh-one", "Set(%d) returns %v on the cache that was cleared and %v on a new cache that received the same calls since the Clear", op.Key, ok, tok))
+				s.dropTwin()
+			}
+			s.compareTwin(&vs, "Set")
+		}
 	case "del":
 		if len(s.fifo) >= s.fifoCap() {
 			// Del blocks until the applier frees a slot: issue it from its own goroutine
@@ -713,6 +727,7 @@ func (s *vfSM) exec(op *vfOp) (vs []*vfViol) {
 			s.modelDel(op)
 			s.fifo = s.fifo[:len(s.fifo)-1] // the tombstone is not in the buffer yet
 			s.st.delOnFullBuffer++
+			s.dropTwin() // not mirrored
 			select {
 			case <-done:
 				// returned although the buffer is full: nothing can have been enqueued
@@ -726,6 +741,10 @@ func (s *vfSM) exec(op *vfOp) (vs []*vfViol) {
 		_, v := s.absorb()
 		s.add(&vs, v)
 		s.modelDel(op)
+		if s.twin != nil {
+			s.twin.c.Del(op.Key)
+			s.compareTwin(&vs, "Del")
+		}
 	case "get":
 		v, ok := s.c.Get(op.Key)
 		op.Res = fmt.Sprintf("%d,%v", v, ok)
@@ -844,6 +863,9 @@ func (s *vfSM) exec(op *vfOp) (vs []*vfViol) {
 	case "umc":
 		s.maxCost += op.Cost
 		s.c.UpdateMaxCost(s.maxCost)
+		if s.twin != nil {
+			s.twin.c.UpdateMaxCost(s.maxCost)
+		}
 	case "clear":
 		s.doClear(false, &vs)
 	case "clearlive":
@@ -868,6 +890,7 @@ func (s *vfSM) parkBlocked() {
 		close(w.done)
 	}()
 	synctest.Wait()
+	s.dropTwin() // not mirrored
 	s.st.waitOnFullBuffer++
 	select {
 	case <-w.done:
@@ -888,6 +911,9 @@ func (s *vfSM) park() {
 	}()
 	synctest.Wait()
 	s.fifo = append(s.fifo, vfPend{kind: pWait, wid: id})
+	if s.twin != nil {
+		s.twin.c.setBuf <- &Item[uint64]{wait: make(chan struct{})} // the same marker in the twin's buffer
+	}
 }
 
 func (s *vfSM) doSweep(prog []vfOp, j int, vs *[]*vfViol) {
@@ -910,6 +936,13 @@ func (s *vfSM) doSweep(prog []vfOp, j int, vs *[]*vfViol) {
 	}
 	s.mu.Unlock()
 	now := time.Now()
+	if s.twin != nil {
+		if s.armedProg != nil {
+			s.dropTwin() // writes from inside the sweep are not mirrored
+		} else if tick {
+			s.twin.c.storedItems.Cleanup(s.twin.c.cachePolicy, nil)
+		}
+	}
 	s.sweepReal()
 	s.mu.Lock()
 	s.armedProg = nil
@@ -1023,6 +1056,7 @@ func (s *vfSM) doClear(live bool, vs *[]*vfViol) {
 	if otherBuf {
 		s.st.clearBufferedOther = true
 	}
+	s.dropTwin()
 	liveBefore := s.liveToks()
 	synctest.Wait() // access batches already handed to the policy goroutine are absorbed before Clear, not after it
 	s.drainTick()   // the applier restarted by Clear must not find a tick: whether it would take it before our halt is a coin flip
@@ -1108,6 +1142,10 @@ func (s *vfSM) doClear(live bool, vs *[]*vfViol) {
 		s.add(vs, vfV("C15", "expiry-index-not-reset", "%d keys left in the expiry index after Clear", nb))
 	}
 	s.checkWaiters(vs, "C15")
+	// from here on a brand-new cache receives the same calls (only where nothing is ever evicted, so that both are deterministic)
+	if !live && s.fitsAlways() && s.twinWanted {
+		s.twin = vfNewTwin(s.cfg, s.maxCost)
+	}
 }
 
 // finish drains, checks, closes the cache and checks the closed cache.
@@ -1121,6 +1159,7 @@ func (s *vfSM) finish() (vs []*vfViol) {
 	if len(vs) > 0 {
 		return
 	}
+	s.dropTwin()
 	liveBefore := s.liveToks()
 	if n := s.nextWid; n%2 == 0 && len(s.fifo) < s.fifoCap() {
 		s.park() // a goroutine parked in Wait() across Close
